@@ -31,6 +31,8 @@
 (*             "h2c" (HTTP/2 without TLS, and HTTP/1.1)                    *)
 (*   http2     -http2 (default true)     h2c   -h2c                        *)
 (*   hosthdr   -header "Host: virtual.example": the request's host          *)
+(*   head      entry 3 is a HEAD request (the response announces its five     *)
+(*             bytes and carries none)                                      *)
 (*   stall     -output is a named pipe whose reader does not read for the   *)
 (*             first second: results are not taken, so every released hit   *)
 (*             needs a worker of its own (list: K times GET /size/100000/i, *)
@@ -64,13 +66,14 @@ Min(a, b) == IF a <= b THEN a ELSE b
 Base == [server |-> "plain", trust |-> "na", format |-> "http", lazy |-> TRUE, bad |-> "none", rate |-> 0, maxw |-> 1, workers |-> 1,
          name |-> "", hdr |-> FALSE, body |-> FALSE, chunked |-> FALSE, maxbody |-> -1, redirects |-> "default", keepalive |-> TRUE,
          timeout |-> "default", connectto |-> FALSE, laddr |-> FALSE, prom |-> FALSE, maxconn |-> 0, hosts |-> 1,
-         http2 |-> TRUE, h2c |-> FALSE, hosthdr |-> FALSE, stall |-> FALSE]
+         http2 |-> TRUE, h2c |-> FALSE, hosthdr |-> FALSE, stall |-> FALSE, head |-> FALSE]
 
 Valid(c) ==
     /\ c.server \in {"plain", "tls", "unix", "tls2", "h2c"} /\ c.format \in {"http", "json"} /\ c.bad \in {"none", "late"}
     /\ (c.server \in {"tls", "tls2"}) = (c.trust # "na")
     /\ (c.h2c => c.server = "h2c") /\ c.trust \in {"na", "insecure", "rootcert", "none"}
     /\ (c.stall => c = [Base EXCEPT !.stall = TRUE, !.lazy = FALSE, !.rate = 200, !.maxw = 64])
+    /\ (c.head => ~c.body)           \* (a HEAD request is sent without a body here)
     /\ c.rate \in {0, 2, 50, 200}          \* (2 per second: the duration is shorter than one pacing interval) /\ c.maxw \in {1, 3, 64} /\ (c.maxw = 64 => c.stall) /\ c.workers \in {1, 3}
     /\ c.maxbody \in {-1, 0, 2, 9} /\ c.redirects \in {"default", "nofollow"} /\ c.timeout \in {"default", "short"}
     /\ (c.prom => c.lazy /\ c.maxw = 1 /\ c.trust # "none" /\ c.bad = "none" /\ c.timeout = "default")   \* the waiting target must come last
@@ -103,6 +106,7 @@ Single ==
           [Base EXCEPT !.server = "h2c", !.h2c = TRUE, !.body = TRUE, !.hdr = TRUE, !.maxbody = 2],
           [Base EXCEPT !.lazy = FALSE, !.rate = 2], [Base EXCEPT !.lazy = FALSE, !.rate = 2, !.maxw = 3, !.workers = 3],
           [Base EXCEPT !.stall = TRUE, !.lazy = FALSE, !.rate = 200, !.maxw = 64],
+          [Base EXCEPT !.head = TRUE], [Base EXCEPT !.head = TRUE, !.maxbody = 2], [Base EXCEPT !.head = TRUE, !.maxbody = 0, !.server = "tls", !.trust = "insecure"],
           [Base EXCEPT !.hosthdr = TRUE], [Base EXCEPT !.hosthdr = TRUE, !.hdr = TRUE, !.format = "json"], [Base EXCEPT !.hosthdr = TRUE, !.connectto = TRUE],
           [Base EXCEPT !.maxconn = 1], [Base EXCEPT !.maxconn = 1, !.maxw = 3], [Base EXCEPT !.connectto = TRUE, !.hosts = 2],
           [Base EXCEPT !.lazy = FALSE, !.rate = 0, !.maxw = 3, !.maxconn = 1], [Base EXCEPT !.lazy = FALSE, !.rate = 0, !.maxw = 3, !.maxconn = 2],
@@ -120,11 +124,11 @@ PathOf(c, i) == IF c.stall THEN "/size/100000/" \o ToString(i)
                 ELSE CASE i = 1 -> "/ok/1" [] i = 2 -> "/echo" [] i = 3 -> "/size/5" [] i = 4 -> "/redirect/1" [] i = 5 -> "/status/404"
                        [] i = 6 -> (IF c.timeout = "short" THEN "/slow/800" ELSE "/ok/6")
                        [] i = 7 -> (IF c.prom THEN "/promwait/6" ELSE "/ok/7")
-MethodOf(c, i) == IF ~SlowList(c) /\ ~c.stall /\ i = 2 THEN "POST" ELSE "GET"
+MethodOf(c, i) == IF ~SlowList(c) /\ ~c.stall /\ i = 2 THEN "POST" ELSE IF ~SlowList(c) /\ ~c.stall /\ i = 3 /\ c.head THEN "HEAD" ELSE "GET"
 OwnBody(c, i) == ~SlowList(c) /\ ~c.stall /\ i = 2
 BodyOf(c, i) == IF OwnBody(c, i) THEN "own" ELSE IF c.body THEN "dflt" ELSE ""
 RespSize(c, i) == IF SlowList(c) THEN 4
-                  ELSE CASE i = 1 -> 2 [] i = 2 -> Len(BodyOf(c, 2)) [] i = 3 -> 5 [] i = 5 -> 1
+                  ELSE CASE i = 1 -> 2 [] i = 2 -> Len(BodyOf(c, 2)) [] i = 3 -> (IF c.head THEN 0 ELSE 5) [] i = 5 -> 1
                          [] i = 4 -> (IF c.redirects = "nofollow" THEN 0 ELSE 3)     \* the 302 of net/http carries no body for the client that does not follow
                          [] i = 6 -> (IF c.timeout = "short" THEN 4 ELSE 2)
                          [] i = 7 -> (IF c.prom THEN 4 ELSE 2)
